@@ -74,7 +74,11 @@ type Rec struct {
 	cur        Case
 	samples    *[]any
 	hashOver   *uint64
+	inconcl    []string
 }
+
+// Inconclusive records that the oracle could not decide this case (budget exhausted, checker timeout…).
+func (r *Rec) Inconclusive(reason string) { r.inconcl = append(r.inconcl, reason) }
 
 // Fail records a violation. site must be a stable, mechanical signature.
 func (r *Rec) Fail(site, format string, args ...any) {
